@@ -5,6 +5,7 @@ C01, tree level: the archiver pipeline of `Model/Archive.lean` (`Parent` without
 -/
 import Rustic.Lemmas.Snapshot
 import Rustic.Lemmas.ArchiveDedup
+import Rustic.Lemmas.ArchiveComplete
 namespace Rustic.Snapshot
 open Rustic.Tree Rustic.Parent Rustic.Archive Rustic.RoundTrip
 
@@ -200,5 +201,39 @@ theorem archive_eq_save (H : List Node → Id) (hash : Bytes → Id) (chunks : B
   · simp only [TA.finalize, hadds, ht, ha]
     split <;> simp
   · exact steps_data_list hash chunks hasData H hasTree src
+
+end Rustic.Snapshot
+
+namespace Rustic.Snapshot
+open Rustic.Tree Rustic.Parent Rustic.Archive Rustic.RoundTrip
+
+mutual
+/-- the items of a well-formed source are `SrcItems` (nodes carry neither content nor subtree ids yet) -/
+theorem srcItems_tree : ∀ (t : STree), t.WF → SrcItems t.items
+  | .leaf n d, h => by
+    simp only [STree.WF] at h
+    intro it hit
+    simp only [STree.items, List.mem_singleton] at hit
+    subst hit
+    exact ⟨h.2.2.1, h.2.1⟩
+  | .dir n cs, h => by
+    simp only [STree.WF] at h
+    have ih := srcItems_list cs h.2.2.2
+    intro it hit
+    simp only [STree.items, List.mem_cons, List.mem_append, List.not_mem_nil, or_false] at hit
+    rcases hit with rfl | hit | rfl
+    · exact ⟨h.2.2.1, h.2.1⟩
+    · exact ih it hit
+    · trivial
+theorem srcItems_list : ∀ (ts : List STree), WFL ts → SrcItems (itemsL ts)
+  | [], _ => by intro it hit; simp [itemsL] at hit
+  | t :: ts, h => by
+    simp only [WFL] at h
+    intro it hit
+    simp only [itemsL, List.mem_append] at hit
+    rcases hit with hit | hit
+    · exact srcItems_tree t h.1 it hit
+    · exact srcItems_list ts h.2 it hit
+end
 
 end Rustic.Snapshot
